@@ -168,7 +168,27 @@ def system_text(M):
     return s + 'system %s;\n' % sep.join(M.system) if M.system else s + 'system ;\n'
 
 
+def old_params(M, rng):
+    """parameters the 3.x way for a model that went through oldify: groups separated by ';', `int a, b` (by reference) and `const lo, hi` (constant integers by
+    value), several names per group.  Templates that got parameters leave the system line (one parameterless template stays)."""
+    keep = rng.randrange(len(M.templates)) if M.templates else 0
+    for ti, T in enumerate(M.templates):
+        if ti == keep or rng.random() < 0.3:
+            continue
+        groups = [(rng.choice(['ref', 'cval', 'cval']), rng.choice([1, 2, 2, 3])) for _ in range(rng.choice([1, 2, 2, 3]))]
+        T['old_groups'], T['params'], q = [], [], 0
+        for kind, n in groups:
+            names = ['p%s_%d' % (T['name'][1:], q + i) for i in range(n)]
+            q += n
+            T['old_groups'].append((kind, names))
+            T['params'] += [(nm, kind) for nm in names]
+    M.system = [T['name'] for T in M.templates if not T['params']]
+    return M
+
+
 def params_text(T):
+    if T.get('old_groups'):
+        return '; '.join(('const %s' if kind == 'cval' else 'int %s') % ', '.join(names) for kind, names in T['old_groups'])
     return ', '.join({'val': 'int %s', 'ref': 'int &%s', 'cval': 'const int %s', 'cref': 'const int &%s'}[k] % n for n, k in T['params'])
 
 
